@@ -329,6 +329,41 @@ theorem dedupe_spec (hC : C.candidates.Nodup) (s : Store α D) : ∀ (ids : List
         · exact Or.inl ⟨z', hz', hc.trans hc'⟩
       · exact Or.inr ⟨i, List.mem_cons_of_mem _ hi, b, hb, hc⟩
 
+/-- if the largest estimate on the frontier is finite, every estimate on it is -/
+theorem maxEst_fin (s : Store α D) (te : Nat) (rest : List Nat) (h : maxEst s te rest ≠ Diff.inf) :
+    ∀ id ∈ te :: rest, (s.get id).estimate ≠ Diff.inf := by
+  unfold maxEst at h
+  have key : ∀ (l : List Nat) (m : Diff D),
+      l.foldl (fun m i => if Diff.lt m (s.get i).estimate then (s.get i).estimate else m) m ≠ Diff.inf →
+      m ≠ Diff.inf ∧ ∀ id ∈ l, (s.get id).estimate ≠ Diff.inf := by
+    intro l
+    induction l with
+    | nil => intro m hm; exact ⟨hm, fun _ h => nomatch h⟩
+    | cons i l ih =>
+      intro m hm
+      rw [List.foldl_cons] at hm
+      obtain ⟨h1, h2⟩ := ih _ hm
+      cases hmi : m with
+      | inf =>
+        exfalso
+        rw [hmi] at h1
+        simp [Diff.lt] at h1
+      | fin d =>
+        refine ⟨(fun hh => nomatch hh), ?_⟩
+        intro id hid
+        simp only [List.mem_cons] at hid
+        rcases hid with rfl | hid
+        · intro hinf
+          rw [hmi, hinf] at h1
+          simp [Diff.lt] at h1
+        · exact h2 id hid
+  obtain ⟨h1, h2⟩ := key rest _ h
+  intro id hid
+  simp only [List.mem_cons] at hid
+  rcases hid with rfl | hid
+  · exact h1
+  · exact h2 id hid
+
 theorem exit_all_finite {st : St α D} (h : ExitState asn C cvrs winner st) :
     ∀ id ∈ st.fr, (st.store.get id).estimate ≠ Diff.inf := by
   obtain ⟨hI, te, rest, hfr, hne⟩ := h
@@ -346,15 +381,34 @@ theorem exit_all_finite {st : St α D} (h : ExitState asn C cvrs winner st) :
     rw [hfr] at hp
     exact hte ((List.pairwise_cons.1 hp).1 id hid hinf)
 
+/-- an `agap` test that is false when the largest estimate on the frontier is `inf` (`inf - lowerbound` is
+`inf` or `nan`, never `<= agap` for a finite `agap`) -/
+def GapOK (gap : Diff D → Diff D → Bool) : Prop := ∀ l, gap Diff.inf l = false
+
+theorem gapOK_noGap : GapOK (noGap : Diff D → Diff D → Bool) := fun _ => rfl
+
+/-- at either exit every node of the frontier has a finite estimate (hence carries an assertion) -/
+theorem exitG_all_finite {gap : Diff D → Diff D → Bool} (hgap : GapOK gap) {st : St α D}
+    (h : ExitG asn C cvrs winner gap st) :
+    ∀ id ∈ st.fr, (st.store.get id).estimate ≠ Diff.inf := by
+  obtain ⟨hI, te, rest, hfr, hne | hg⟩ := h
+  · exact exit_all_finite asn C cvrs winner ⟨hI, te, rest, hfr, hne⟩
+  · rw [hfr]
+    apply maxEst_fin
+    intro hinf
+    rw [hinf] at hg
+    cases hlb : st.lb with
+    | none => rw [hlb] at hg; simp [gapExit] at hg
+    | some l => rw [hlb] at hg; simp only [gapExit] at hg; rw [hgap l] at hg; cases hg
+
 /-- the post-processing of an exit state yields true assertions that exclude every alternative winner,
 each of them (up to `rules_out`) the assertion of a frontier node -/
-theorem post_spec (hC : C.candidates.Nodup) {st : St α D} (hE : ExitState asn C cvrs winner st)
+theorem post_spec (hC : C.candidates.Nodup) {st : St α D} (hI : Inv asn C cvrs winner st)
+    (hfin : ∀ id ∈ st.fr, (st.store.get id).estimate ≠ Diff.inf)
     {L : List (Assertion α D)} (hd : dedupe st.store st.fr [] = Res.ok L) :
     (∀ a ∈ subsumePass (sortAssertions L), Fam asn C cvrs a) ∧
     Sufficient C.candidates winner (subsumePass (sortAssertions L)) ∧
     (∀ a ∈ subsumePass (sortAssertions L), ∃ id ∈ st.fr, ∃ b, (st.store.get id).best = some b ∧ core a = core b) := by
-  have hfin := exit_all_finite asn C cvrs winner hE
-  obtain ⟨hI, _⟩ := hE
   have hP0 : PostInv C.candidates ([] : List (Assertion α D)) (fun _ => False) :=
     ⟨by simp, by simp, fun _ h => h.elim⟩
   obtain ⟨d1, d2, d3⟩ := dedupe_spec asn C cvrs winner hC st.store st.fr [] L _ hd hP0
@@ -380,15 +434,15 @@ theorem post_spec (hC : C.candidates.Nodup) {st : St α D} (hE : ExitState asn C
     · cases hz'
     · exact ⟨id, hid, b, hb, hc.trans hc'⟩
 
-/-- the ways `computeRaireAssertions` can return a list -/
-theorem compute_cases {fuel : Nat} {as : List (Assertion α D)}
-    (h : computeRaireAssertions asn C cvrs winner fuel = Res.ok as) :
+/-- the ways `computeRaireAssertionsG` can return a list -/
+theorem computeG_cases {gap : Diff D → Diff D → Bool} {fuel : Nat} {as : List (Assertion α D)}
+    (h : computeRaireAssertionsG gap asn C cvrs winner fuel = Res.ok as) :
     (as = [] ∧ initLoop asn C (cvrs.filterMap id) (nebTable asn C cvrs) (initTails C winner) ⟨#[], [], none⟩ = none) ∨
     (∃ st0, initLoop asn C (cvrs.filterMap id) (nebTable asn C cvrs) (initTails C winner) ⟨#[], [], none⟩ = some st0 ∧
-      ((as = [] ∧ mainLoop asn C (cvrs.filterMap id) (nebTable asn C cvrs) fuel st0 = Res.ok none) ∨
-       ∃ st L, mainLoop asn C (cvrs.filterMap id) (nebTable asn C cvrs) fuel st0 = Res.ok (some st) ∧
+      ((as = [] ∧ mainLoopG gap asn C (cvrs.filterMap id) (nebTable asn C cvrs) fuel st0 = Res.ok none) ∨
+       ∃ st L, mainLoopG gap asn C (cvrs.filterMap id) (nebTable asn C cvrs) fuel st0 = Res.ok (some st) ∧
          dedupe st.store st.fr [] = Res.ok L ∧ as = subsumePass (sortAssertions L))) := by
-  unfold computeRaireAssertions at h
+  unfold computeRaireAssertionsG at h
   simp only at h
   split at h
   · rename_i hi
@@ -409,6 +463,16 @@ theorem compute_cases {fuel : Nat} {as : List (Assertion α D)}
         exact ⟨st, L, hm, hd, rfl⟩
       · cases h
       · cases h
+
+/-- the ways `computeRaireAssertions` can return a list -/
+theorem compute_cases {fuel : Nat} {as : List (Assertion α D)}
+    (h : computeRaireAssertions asn C cvrs winner fuel = Res.ok as) :
+    (as = [] ∧ initLoop asn C (cvrs.filterMap id) (nebTable asn C cvrs) (initTails C winner) ⟨#[], [], none⟩ = none) ∨
+    (∃ st0, initLoop asn C (cvrs.filterMap id) (nebTable asn C cvrs) (initTails C winner) ⟨#[], [], none⟩ = some st0 ∧
+      ((as = [] ∧ mainLoop asn C (cvrs.filterMap id) (nebTable asn C cvrs) fuel st0 = Res.ok none) ∨
+       ∃ st L, mainLoop asn C (cvrs.filterMap id) (nebTable asn C cvrs) fuel st0 = Res.ok (some st) ∧
+         dedupe st.store st.fr [] = Res.ok L ∧ as = subsumePass (sortAssertions L))) :=
+  computeG_cases asn C cvrs winner h
 
 /-- at exit the estimate of every frontier node is below the largest difficulty of every sufficient
 set of true assertions (O2, O3 and O1 at the exit test) -/
@@ -431,6 +495,30 @@ theorem exit_all_leOPT {st : St α D} (h : ExitState asn C cvrs winner st) :
       · exact hte.mono asn C cvrs winner h'
       · exact hI.fr.leOPT_of_leLB h'
 
+/-- **Main statement about the result, for every `agap` test.** An empty result comes with an alternative
+order that no true assertion contradicts. A non-empty result consists of true assertions of the family and
+excludes every alternative winner — whenever the gap exit fires. -/
+theorem computeG_spec {gap : Diff D → Diff D → Bool} (hgap : GapOK gap)
+    (hC : C.candidates.Nodup) (hn : 2 ≤ C.candidates.length) {fuel : Nat}
+    {as : List (Assertion α D)} (h : computeRaireAssertionsG gap asn C cvrs winner fuel = Res.ok as) :
+    (as = [] → BadLeaf asn C cvrs winner) ∧
+    (as ≠ [] → (∀ a ∈ as, Fam asn C cvrs a) ∧ Sufficient C.candidates winner as) := by
+  have hinit := init_inv asn C cvrs winner hC hn
+  rcases computeG_cases asn C cvrs winner h with ⟨h1, hi⟩ | ⟨st0, hi, ⟨h1, hm⟩ | ⟨st, L, hm, hd, rfl⟩⟩
+  · rw [hi] at hinit
+    exact ⟨fun _ => hinit, fun hne => absurd h1 hne⟩
+  · rw [hi] at hinit
+    exact ⟨fun _ => (mainLoopG_spec asn C cvrs winner gap hC hn fuel st0 _ hm hinit.1).1, fun hne => absurd h1 hne⟩
+  · rw [hi] at hinit
+    have hE : ExitG asn C cvrs winner gap st := (mainLoopG_spec asn C cvrs winner gap hC hn fuel st0 _ hm hinit.1).1
+    have hfin := exitG_all_finite asn C cvrs winner hgap hE
+    obtain ⟨p1, p2, _⟩ := post_spec asn C cvrs winner hC hE.1 hfin hd
+    refine ⟨fun h0 => ?_, fun _ => ⟨p1, p2⟩⟩
+    exfalso
+    obtain ⟨π, hπ⟩ := exists_alt C winner hC hn
+    obtain ⟨a, ha, _⟩ := p2 π hπ
+    rw [h0] at ha; cases ha
+
 /-- **Main statement about the result.** An empty result comes with an alternative order that no true
 assertion contradicts. A non-empty result consists of true assertions of the family, excludes every
 alternative winner, and the difficulty of each returned assertion is below the largest difficulty of every
@@ -448,9 +536,9 @@ theorem compute_spec (hC : C.candidates.Nodup) (hn : 2 ≤ C.candidates.length) 
     exact ⟨fun _ => (mainLoop_spec asn C cvrs winner hC hn fuel st0 _ hm hinit.1).1, fun hne => absurd h1 hne⟩
   · rw [hi] at hinit
     have hE : ExitState asn C cvrs winner st := (mainLoop_spec asn C cvrs winner hC hn fuel st0 _ hm hinit.1).1
-    obtain ⟨p1, p2, p3⟩ := post_spec asn C cvrs winner hC hE hd
     have hopt := exit_all_leOPT asn C cvrs winner hE
     have hfin := exit_all_finite asn C cvrs winner hE
+    obtain ⟨p1, p2, p3⟩ := post_spec asn C cvrs winner hC hE.1 hfin hd
     refine ⟨fun h0 => ?_, fun _ => ⟨p1, p2, ?_⟩⟩
     · exfalso
       obtain ⟨π, hπ⟩ := exists_alt C winner hC hn
@@ -463,6 +551,97 @@ theorem compute_spec (hC : C.candidates.Nodup) (hn : 2 ≤ C.candidates.length) 
       rw [hb] at hb'; cases hb'
       rw [(core_fields hc).2.2.2.2.2.2, ← hest]
       exact hopt i hi'
+
+/-- every estimate on the frontier is at most the largest one -/
+theorem le_maxEst (s : Store α D) (te : Nat) (rest : List Nat) :
+    ∀ id ∈ te :: rest, Diff.le (s.get id).estimate (maxEst s te rest) = true := by
+  unfold maxEst
+  have key : ∀ (l : List Nat) (m : Diff D),
+      Diff.le m (l.foldl (fun m i => if Diff.lt m (s.get i).estimate then (s.get i).estimate else m) m) = true ∧
+      ∀ id ∈ l, Diff.le (s.get id).estimate
+        (l.foldl (fun m i => if Diff.lt m (s.get i).estimate then (s.get i).estimate else m) m) = true := by
+    intro l
+    induction l with
+    | nil => intro m; exact ⟨Diff.le_refl m, fun _ h => nomatch h⟩
+    | cons i l ih =>
+      intro m
+      rw [List.foldl_cons]
+      obtain ⟨h1, h2⟩ := ih (if Diff.lt m (s.get i).estimate then (s.get i).estimate else m)
+      have hm : Diff.le m (if Diff.lt m (s.get i).estimate then (s.get i).estimate else m) = true ∧
+          Diff.le (s.get i).estimate (if Diff.lt m (s.get i).estimate then (s.get i).estimate else m) = true := by
+        cases hlt : Diff.lt m (s.get i).estimate with
+        | true =>
+          simp only [if_true]
+          refine ⟨?_, Diff.le_refl _⟩
+          have := (Diff.lt_iff_not_le m (s.get i).estimate).1 hlt
+          rcases Diff.le_total m (s.get i).estimate with h | h
+          · exact h
+          · rw [this] at h; cases h
+        | false =>
+          simp only [Bool.false_eq_true, if_false]
+          refine ⟨Diff.le_refl _, ?_⟩
+          cases hle : Diff.le (s.get i).estimate m with
+          | true => rfl
+          | false =>
+            have := (Diff.lt_iff_not_le m (s.get i).estimate).2 hle
+            rw [this] at hlt; cases hlt
+      refine ⟨Diff.le_trans hm.1 h1, ?_⟩
+      intro id hid
+      simp only [List.mem_cons] at hid
+      rcases hid with rfl | hid
+      · exact Diff.le_trans hm.2 h1
+      · exact h2 id hid
+  obtain ⟨h1, h2⟩ := key rest (s.get te).estimate
+  intro id hid
+  simp only [List.mem_cons] at hid
+  rcases hid with rfl | hid
+  · exact h1
+  · exact h2 id hid
+
+/-- **What optimality becomes with a positive allowed gap.** For a non-empty result: either the search ran to
+its normal end and every returned difficulty is below the largest difficulty of every sufficient set of true
+assertions (as for `agap = 0`), or the `agap` test was true of a pair `(mx, l)` where `mx` bounds every returned
+difficulty from above and `l` is a lower bound of the largest difficulty of every sufficient set. With the
+Python test `mx - l <= agap`: the result is within `agap` of the optimum. -/
+theorem computeG_near_opt {gap : Diff D → Diff D → Bool} (hgap : GapOK gap)
+    (hC : C.candidates.Nodup) (hn : 2 ≤ C.candidates.length) {fuel : Nat}
+    {as : List (Assertion α D)} (h : computeRaireAssertionsG gap asn C cvrs winner fuel = Res.ok as)
+    (hne : as ≠ []) :
+    (∀ a ∈ as, LeOPT asn C cvrs winner (Diff.fin a.difficulty)) ∨
+    ∃ mx l, gap mx l = true ∧ LeOPT asn C cvrs winner l ∧
+      ∀ a ∈ as, Diff.le (Diff.fin a.difficulty) mx = true := by
+  have hinit := init_inv asn C cvrs winner hC hn
+  rcases computeG_cases asn C cvrs winner h with ⟨h1, _⟩ | ⟨st0, hi, ⟨h1, _⟩ | ⟨st, L, hm, hd, rfl⟩⟩
+  · exact absurd h1 hne
+  · exact absurd h1 hne
+  · rw [hi] at hinit
+    have hE : ExitG asn C cvrs winner gap st := (mainLoopG_spec asn C cvrs winner gap hC hn fuel st0 _ hm hinit.1).1
+    have hfin := exitG_all_finite asn C cvrs winner hgap hE
+    obtain ⟨_, _, p3⟩ := post_spec asn C cvrs winner hC hE.1 hfin hd
+    have hdiff : ∀ a ∈ subsumePass (sortAssertions L), ∃ i ∈ st.fr,
+        (st.store.get i).estimate = Diff.fin a.difficulty := by
+      intro a ha
+      obtain ⟨i, hi', b, hb, hc⟩ := p3 a ha
+      obtain ⟨b', hb', _, hest, _⟩ := node_assertion asn C cvrs winner hC (hE.1.ok i (hE.1.fr.inRange i hi'))
+        (hfin i hi')
+      rw [hb] at hb'; cases hb'
+      exact ⟨i, hi', by rw [(core_fields hc).2.2.2.2.2.2, ← hest]⟩
+    obtain ⟨hI, te, rest, hfr, hne' | hg⟩ := hE
+    · left
+      have hopt := exit_all_leOPT asn C cvrs winner ⟨hI, te, rest, hfr, hne'⟩
+      intro a ha
+      obtain ⟨i, hi', he⟩ := hdiff a ha
+      rw [← he]; exact hopt i hi'
+    · right
+      cases hlb : st.lb with
+      | none => rw [hlb] at hg; simp [gapExit] at hg
+      | some l =>
+        rw [hlb] at hg
+        refine ⟨maxEst st.store te rest, l, hg, hI.fr.lbOpt l hlb, ?_⟩
+        intro a ha
+        obtain ⟨i, hi', he⟩ := hdiff a ha
+        rw [← he]
+        exact le_maxEst st.store te rest i (by rw [← hfr]; exact hi')
 
 /-- the de-duplication loop raises no AttributeError when every frontier node carries an assertion -/
 theorem dedupe_ok (s : Store α D) : ∀ (ids : List Nat) (acc : List (Assertion α D)),
@@ -478,20 +657,21 @@ theorem dedupe_ok (s : Store α D) : ∀ (ids : List Nat) (acc : List (Assertion
       rw [dedupe, hb]
       exact ih _ (fun j hj => h j (List.mem_cons_of_mem _ hj))
 
-/-- **No exception.** The model never reaches one of its error exits: the frontier is never empty when
-`max` / `nodes[0]` are evaluated (ValueError), `rem_cands[0]` exists in every dive (IndexError), and every
-node of the final frontier carries an assertion (AttributeError). -/
-theorem compute_no_err (hC : C.candidates.Nodup) (hn : 2 ≤ C.candidates.length) (fuel : Nat) (e : Err) :
-    computeRaireAssertions asn C cvrs winner fuel ≠ Res.err e := by
+/-- **No exception**, for every `agap` test. The model never reaches one of its error exits: the frontier is
+never empty when `max` / `nodes[0]` are evaluated (ValueError), `rem_cands[0]` exists in every dive
+(IndexError), and every node of the final frontier carries an assertion (AttributeError). -/
+theorem computeG_no_err {gap : Diff D → Diff D → Bool} (hgap : GapOK gap)
+    (hC : C.candidates.Nodup) (hn : 2 ≤ C.candidates.length) (fuel : Nat) (e : Err) :
+    computeRaireAssertionsG gap asn C cvrs winner fuel ≠ Res.err e := by
   intro h
   have hinit := init_inv asn C cvrs winner hC hn
-  unfold computeRaireAssertions at h
+  unfold computeRaireAssertionsG at h
   simp only at h
   split at h
   · cases h
   · rename_i st0 hi
     rw [hi] at hinit
-    have hloop := (mainLoop_spec asn C cvrs winner hC hn fuel st0 _ rfl hinit.1).1
+    have hloop := (mainLoopG_spec asn C cvrs winner gap hC hn fuel st0 _ rfl hinit.1).1
     split at h
     · cases h
     · rename_i e' hm
@@ -499,32 +679,38 @@ theorem compute_no_err (hC : C.candidates.Nodup) (hn : 2 ≤ C.candidates.length
     · cases h
     · rename_i st hm
       rw [hm] at hloop
-      have hE : ExitState asn C cvrs winner st := hloop
-      have hfin := exit_all_finite asn C cvrs winner hE
+      have hE : ExitG asn C cvrs winner gap st := hloop
+      have hfin := exitG_all_finite asn C cvrs winner hgap hE
       obtain ⟨L, hL⟩ := dedupe_ok st.store st.fr [] (fun i hi' hb => by
         obtain ⟨a, ha, _⟩ := node_assertion asn C cvrs winner hC (hE.1.ok i (hE.1.fr.inRange i hi')) (hfin i hi')
         rw [ha] at hb; cases hb)
       rw [hL] at h
       cases h
 
-/-- **Termination.** With at least `raireFuel` iterations allowed the model returns a list: the search
-terminates (the measure `Phi` decreases in every iteration of the main loop, a dive takes at most as many
-steps as there are candidates) and raises no exception. -/
-theorem compute_terminates (hC : C.candidates.Nodup) (hn : 2 ≤ C.candidates.length) (fuel : Nat)
-    (hfuel : raireFuel C winner ≤ fuel) : ∃ as, computeRaireAssertions asn C cvrs winner fuel = Res.ok as := by
-  cases hres : computeRaireAssertions asn C cvrs winner fuel with
+theorem compute_no_err (hC : C.candidates.Nodup) (hn : 2 ≤ C.candidates.length) (fuel : Nat) (e : Err) :
+    computeRaireAssertions asn C cvrs winner fuel ≠ Res.err e :=
+  computeG_no_err asn C cvrs winner gapOK_noGap hC hn fuel e
+
+/-- **Termination**, for every `agap` test. With at least `raireFuel` iterations allowed the model returns a
+list: the search terminates (the measure `Phi` decreases in every iteration of the main loop, a dive takes at
+most as many steps as there are candidates) and raises no exception. -/
+theorem computeG_terminates {gap : Diff D → Diff D → Bool} (hgap : GapOK gap)
+    (hC : C.candidates.Nodup) (hn : 2 ≤ C.candidates.length) (fuel : Nat)
+    (hfuel : raireFuel C winner ≤ fuel) :
+    ∃ as, computeRaireAssertionsG gap asn C cvrs winner fuel = Res.ok as := by
+  cases hres : computeRaireAssertionsG gap asn C cvrs winner fuel with
   | ok as => exact ⟨as, rfl⟩
-  | err e => exact absurd hres (compute_no_err asn C cvrs winner hC hn fuel e)
+  | err e => exact absurd hres (computeG_no_err asn C cvrs winner hgap hC hn fuel e)
   | fuel =>
     exfalso
     have hinit := init_inv asn C cvrs winner hC hn
-    unfold computeRaireAssertions at hres
+    unfold computeRaireAssertionsG at hres
     simp only at hres
     split at hres
     · cases hres
     · rename_i st0 hi
       rw [hi] at hinit
-      obtain ⟨hloop, hlf⟩ := mainLoop_spec asn C cvrs winner hC hn fuel st0 _ rfl hinit.1
+      obtain ⟨hloop, hlf⟩ := mainLoopG_spec asn C cvrs winner gap hC hn fuel st0 _ rfl hinit.1
       split at hres
       · rename_i hm
         have := hlf hm
@@ -534,13 +720,17 @@ theorem compute_terminates (hC : C.candidates.Nodup) (hn : 2 ≤ C.candidates.le
       · cases hres
       · rename_i st hm
         rw [hm] at hloop
-        have hE : ExitState asn C cvrs winner st := hloop
-        have hfin := exit_all_finite asn C cvrs winner hE
+        have hE : ExitG asn C cvrs winner gap st := hloop
+        have hfin := exitG_all_finite asn C cvrs winner hgap hE
         obtain ⟨L, hL⟩ := dedupe_ok st.store st.fr [] (fun i hi' hb => by
           obtain ⟨a, ha, _⟩ := node_assertion asn C cvrs winner hC (hE.1.ok i (hE.1.fr.inRange i hi')) (hfin i hi')
           rw [ha] at hb; cases hb)
         rw [hL] at hres
         cases hres
+
+theorem compute_terminates (hC : C.candidates.Nodup) (hn : 2 ≤ C.candidates.length) (fuel : Nat)
+    (hfuel : raireFuel C winner ≤ fuel) : ∃ as, computeRaireAssertions asn C cvrs winner fuel = Res.ok as :=
+  computeG_terminates asn C cvrs winner gapOK_noGap hC hn fuel hfuel
 
 end Main
 end Shangrla.Raire
